@@ -57,7 +57,7 @@ func (u *Unit) callVals(fr *Frame, st *State, c *ssa.CallCommon, fn Val, args []
 			return resultsToVal(sig, u.applyContract(fr, st, ct, sig, all, true, pos, key))
 		}
 		if u.prog.isPure(key) {
-			return u.freshResults(st, sig, key)
+			return u.freshResultsArgs(st, sig, key, all)
 		}
 		return u.uncontracted(st, sig, key, pos)
 	}
@@ -138,12 +138,39 @@ func (u *Unit) callStatic(fr *Frame, st *State, fn *ssa.Function, args []Val, po
 		return u.inline(fr, st, fn, args, nil, pos)
 	}
 	if u.prog.isPure(key) {
-		return u.freshResults(st, sig, key)
+		return u.freshResultsArgs(st, sig, key, args)
 	}
 	return u.uncontracted(st, sig, key, pos)
 }
 
 func (u *Unit) freshResults(st *State, sig *types.Signature, key string) Val {
+	return u.freshResultsArgs(st, sig, key, nil)
+}
+
+// freshResultsArgs: results of a side-effect free call; for calls declared
+// `functions` the (single, scalar) result is an uninterpreted function of the arguments.
+func (u *Unit) freshResultsArgs(st *State, sig *types.Signature, key string, args []Val) Val {
+	if args != nil && u.prog.isFunction(key) && sig.Results().Len() == 1 {
+		var as []*Term
+		var sorts []Sort
+		ok := true
+		for _, a := range args {
+			t, isT := a.(*Term)
+			if !isT {
+				ok = false
+				break
+			}
+			as = append(as, t)
+			sorts = append(sorts, t.Sort)
+		}
+		rsort, scalar := u.sortOf(sig.Results().At(0).Type())
+		if ok && scalar {
+			f := u.ctx.Func("fn!"+key, sorts, rsort)
+			r := u.ctx.Define("ret", App(rsort, f, as...))
+			u.assume(st, u.typeFacts(r, sig.Results().At(0).Type()))
+			return r
+		}
+	}
 	var vals []Val
 	for i := 0; i < sig.Results().Len(); i++ {
 		vals = append(vals, u.freshVal(st, sig.Results().At(i).Type(), "ret_"+shortName(key)))
@@ -270,6 +297,67 @@ func (u *Unit) applyContract(fr *Frame, st *State, ct *Contract, sig *types.Sign
 		}
 		u.checkCallFrame(st, items, false, pos, key)
 		u.havocItems(st, havoc)
+	}
+	if pname := ct.Flags["iterates"]; pname != "" {
+		// iteration schema: the callee calls its function argument any number of
+		// times (jx.Decoder.Arr/Obj, ...). The closure's own contract is used as the
+		// invariant of that hidden loop: its requires must hold now, what it
+		// modifies becomes unknown, and its requires hold again afterwards (the
+		// closure unit proves "requires ==> ensures", and the contract author states
+		// the invariant in both).
+		for k := 0; k < sig.Params().Len(); k++ {
+			if sig.Params().At(k).Name() != pname {
+				continue
+			}
+			idx := k
+			if hasRecv {
+				idx++
+			}
+			if idx >= len(args) {
+				continue
+			}
+			cv, ok := args[idx].(*ClosureVal)
+			if !ok {
+				u.note("iterated function argument of " + key + " is not a closure literal: its effects are not modelled")
+				u.checkCallFrame(st, nil, true, pos, key+" (iterated function value)")
+				u.havocAll(st, "call to "+key+" with an unknown function value")
+				continue
+			}
+			ck := funcKey(cv.Fn)
+			cc := u.prog.specs.Contracts[ck]
+			if cc == nil {
+				u.uncontractedCalls[ck+" (iterated by "+shortName(key)+")"] = true
+				u.checkCallFrame(st, nil, true, pos, ck)
+				u.havocAll(st, "closure "+ck+" iterated by "+key+" has no contract")
+				continue
+			}
+			saved := u.fvCall
+			u.fvCall = closureFV(cv.Fn, cv.Bindings)
+			// parameters of the closure are unknown to the caller
+			var cargs []Val
+			for i := 0; i < cv.Fn.Signature.Params().Len(); i++ {
+				cargs = append(cargs, u.freshVal(st, cv.Fn.Signature.Params().At(i).Type(), "iter_arg"))
+			}
+			no := false
+			u.checkPre(fr, st, cc, cv.Fn.Signature, cargs, pos, ck, &no)
+			cvars, _ := u.bindArgsNamed(cv.Fn.Signature, cargs, false, cc.ParamNames)
+			cenv := &Env{u: u, st: st, old: st, vars: cvars, pkgPath: cc.PkgPath, fvOverride: u.fvCallOrEmpty()}
+			if cc.ModifiesAll || !cc.HasModifies {
+				u.checkCallFrame(st, nil, true, pos, ck)
+				u.havocAll(st, "iterated closure "+ck+" modifies everything")
+			} else {
+				var items []frameItem
+				for _, m := range cc.Modifies {
+					items = append(items, u.evalLoc(cenv, m.Expr, m.Src)...)
+				}
+				u.checkCallFrame(st, items, false, pos, ck)
+				u.havocItems(st, items)
+			}
+			for _, r := range cc.Requires {
+				u.assume(st, u.evalBoolF(cenv, st, r.Expr))
+			}
+			u.fvCall = saved
+		}
 	}
 	if ct.Flags["writes-boxed-pointers"] != "" {
 		// e.g. rows.Scan(&a, &b): every cell whose address was boxed into an
